@@ -35,28 +35,46 @@ def workdir(name):
 
 # ------------------------------------------------------------------ harness build
 _built = {}
+REPO = os.environ.get("VERIF_REPO", "/repo")
 
 
-def build_harness(crate="harness"):
-    """cargo build --release of the conformance harness against /repo's *current* working tree
-    (path dependency; cargo's fingerprinting rebuilds lopdf when sources changed)."""
-    if crate in _built:
-        return _built[crate]
-    cdir = os.path.join(ROOT, crate)
+def _crate_dir(crate):
+    """The harness crate depends on /repo by path.  With VERIF_REPO=<dir> (used to try the checks
+    against a scratch worktree carrying a seeded change, without touching /repo) a shadow copy of
+    the crate is made under .work/ whose path dependency points at <dir>."""
+    src = os.path.join(ROOT, crate)
+    if REPO == "/repo":
+        return src
+    tag = hashlib.sha1(REPO.encode()).hexdigest()[:10]
+    dst = os.path.join(WORK, "shadow-%s-%s" % (crate, tag))
+    os.makedirs(dst, exist_ok=True)
+    subprocess.run(["rsync", "-a", "--delete", "--exclude", "target", src + "/", dst + "/"], check=True)
+    ct = open(os.path.join(dst, "Cargo.toml")).read().replace('path = "/repo"', 'path = "%s"' % REPO)
+    open(os.path.join(dst, "Cargo.toml"), "w").write(ct)
+    return dst
+
+
+def build_harness(bin_name=None, crate="harness"):
+    """cargo build --release of the conformance harness against the repository's *current* working
+    tree (path dependency; cargo's fingerprinting rebuilds lopdf when its sources changed)."""
+    key = (crate, bin_name)
+    if key in _built:
+        return _built[key]
+    cdir = _crate_dir(crate)
     t0 = time.time()
     env = dict(os.environ, CARGO_NET_OFFLINE="true")
-    p = subprocess.run(["cargo", "build", "--release", "--offline", "--bins"], cwd=cdir, env=env,
-                       stdout=subprocess.PIPE, stderr=subprocess.STDOUT, text=True)
+    cmd = ["cargo", "build", "--release", "--offline"] + (["--bin", bin_name] if bin_name else ["--bins"])
+    p = subprocess.run(cmd, cwd=cdir, env=env, stdout=subprocess.PIPE, stderr=subprocess.STDOUT, text=True)
     if p.returncode != 0:
         sys.stdout.write(p.stdout[-6000:])
-        raise ToolError("cargo build failed for %s" % crate)
-    _built[crate] = os.path.join(cdir, "target", "release")
-    log("[build] %s %.1fs" % (crate, time.time() - t0))
-    return _built[crate]
+        raise ToolError("cargo build failed for %s %s" % (crate, bin_name or ""))
+    _built[key] = os.path.join(cdir, "target", "release")
+    log("[build] %s %s %.1fs (repo=%s)" % (crate, bin_name or "all bins", time.time() - t0, REPO))
+    return _built[key]
 
 
 def run_bin(name, args, crate="harness", timeout=1800, env=None, check=True, stdin=None):
-    d = build_harness(crate)
+    d = build_harness(name, crate)
     e = dict(os.environ)
     if env:
         e.update(env)
@@ -70,7 +88,7 @@ def run_bin(name, args, crate="harness", timeout=1800, env=None, check=True, std
         sys.stdout.write(p.stdout[-3000:])
         sys.stdout.write(p.stderr[-3000:])
         raise ToolError("harness %s %s exited %d" % (name, args, p.returncode))
-    log("[harness] %s %s %.1fs" % (name, " ".join(str(a) for a in args), time.time() - t0))
+    log("[harness] %s %s %.1fs" % (name, " ".join(str(a) for a in args)[:200], time.time() - t0))
     return p
 
 
@@ -224,8 +242,10 @@ def read_ndjson(path):
 
 
 # ------------------------------------------------------------------ known findings
-def load_known():
-    p = os.path.join(ROOT, "known_findings.json")
+def load_known(pid):
+    """known_findings/<PID>.json: {"findings": [{"property","signature","what","trigger"}...],
+    "fixed": ["fixed: property=<id> <commit> <what failed>", ...]}.  Read-only at run time."""
+    p = os.path.join(ROOT, "known_findings", pid + ".json")
     if not os.path.exists(p):
         return {"findings": [], "fixed": []}
     with open(p) as f:
@@ -253,7 +273,7 @@ class Check:
         self.assumptions = []
         self.rule = ""
         self.exhaustive = None
-        known = load_known()
+        known = load_known(pid)
         self.known = {f["signature"]: f for f in known.get("findings", []) if f.get("property") == pid}
         os.makedirs(REPLAYS, exist_ok=True)
 
